@@ -109,7 +109,7 @@ func (p *Parser) Enter(in ast.Node) (ast.Node, bool) {
 			case ast.AlterTableDropIndex:
 
 			case ast.AlterTableDropForeignKey:
-				p.Migration.RemoveForeignKey(alter.Table.Name.O, alter.Specs[i].Constraint.Name)
+				p.Migration.RemoveForeignKey(alter.Table.Name.O, alter.Specs[i].Name)
 
 			case ast.AlterTableModifyColumn:
 				if len(alter.Specs[i].NewColumns) > 0 {
